@@ -59,7 +59,25 @@ def choose_parent(rng, kind):
 
 def base_input(rng):
     """Returns (kind, bytes)."""
-    k = rng.randrange(16)
+    k = rng.randrange(17)
+    if k == 16:
+        # every spelling of SGR / CSI / OSC that a tool upstream may emit, well-formed or not: colon sub-parameters
+        # (ITU T.416), empty and huge parameters, truncated sequences, private modes, 8-bit C1
+        seqs = ['38:5:196', '48:5:22', '38:2:1:2:3', '38:2::1:2:3', '48:2::10:20:30', '38:5', '48:5', '38:2', '38:2:1', '38', '48', '38:', '38::',
+                '4:3', '4:0', '58:5:1', '58:2::1:2:3', '38;5', '38;2;1', '38;2', '38;5;999', '38;2;256;0;0', '999', '0;0;0;0', ';', ';;', '',
+                '1;38:5:4;4', '38:5:4;1', '38:2:0:1:2:3', '38:3:1:2:3', '38:4:1:2:3:4', '38:5:1:2:3:4:5:6:7', '99999999999999999999', '-1', '1:2:3:4:5:6']
+        d = gen.gen_diff(rng, nsections=1)
+        out = []
+        for l in d.lines():
+            r = rng.random()
+            if r < 0.5:
+                l = '\x1b[' + rng.choice(seqs) + 'm' + l + rng.choice(['\x1b[m', '\x1b[0m', '', '\x1b[' + rng.choice(seqs) + 'm'])
+            elif r < 0.6:
+                j = rng.randrange(len(l) + 1)
+                l = l[:j] + rng.choice(['\x1b[?25l', '\x1b[2J', '\x1b[1;1H', '\x1b[38:5:1', '\x1b[', '\x1b', '\x9b31m', '\x1b]0;title\x07', '\x1b]8;;x\x1b\\',
+                                        '\x1b[38;5;1;', '\x1b[:m', '\x1b[<1m', '\x1bP1$r\x1b\\', '\x1b(B', '\x1b[1 q']) + l[j:]
+            out.append(l)
+        return 'sgr-zoo', ('\n'.join(out) + '\n').encode('utf-8', 'surrogateescape')
     if k == 14:
         # combined diff coloured as git does, some lines in a moved-line colour (kept raw by delta)
         np_ = rng.choice([2, 2, 3])
